@@ -483,9 +483,10 @@ theorem w16_bounds (x : Int) : -32768 ≤ w16 x ∧ w16 x ≤ 32767 := by
   unfold w16; omega
 
 theorem inrange_contempt (p : Pos) : InRange (contempt p) := by
-  unfold contempt InRange
+  have := contempt_small p
+  unfold InRange
   rw [INF_eq]
-  split <;> omega
+  omega
 
 theorem inrange_mate (ply : Nat) (h : ply ≤ 65534) : InRange (w16 (-INF + ply)) := by
   unfold InRange w16
